@@ -36,6 +36,10 @@ type Prog struct {
 	Sizes    types.Sizes
 
 	roles *Roles
+
+	fieldOwnerMemo map[*types.Var]*types.Named
+	retRootsMemo   map[*ssa.Function][]root
+	retRootsBusy   map[*ssa.Function]bool
 }
 
 func shortName(s string) string {
@@ -48,7 +52,70 @@ func fname(fn *ssa.Function) string {
 	if fn == nil {
 		return "<nil>"
 	}
+	if a, ok := closureAlias[fn]; ok {
+		return a
+	}
+	if p := fn.Parent(); p != nil {
+		if _, ok := closureAlias[p]; ok {
+			// nested closure of an aliased initialiser closure
+			return fname(p) + "$" + fn.Name()[strings.LastIndex(fn.Name(), "$")+1:]
+		}
+	}
 	return shortName(fn.String())
+}
+
+// closureAlias names closures created in package initialisers after the
+// variable/field they are stored into ("zog/conf.DefaultCoercers.Int") so that
+// construct names do not depend on the closure's ordinal (init$3).
+var closureAlias = map[*ssa.Function]string{}
+
+func computeClosureAliases(funcs []*ssa.Function) {
+	for _, fn := range funcs {
+		if fn.Synthetic != "package initializer" {
+			continue
+		}
+		for _, b := range fn.Blocks {
+			for _, in := range b.Instrs {
+				st, ok := in.(*ssa.Store)
+				if !ok {
+					continue
+				}
+				sv := st.Val
+				if ct, ok := sv.(*ssa.ChangeType); ok {
+					sv = ct.X
+				}
+				mc, ok := sv.(*ssa.MakeClosure)
+				var cl *ssa.Function
+				if ok {
+					cl, _ = mc.Fn.(*ssa.Function)
+				} else if f, ok := sv.(*ssa.Function); ok && f.Parent() == fn {
+					cl = f
+				}
+				if cl == nil {
+					continue
+				}
+				// address: Global or FieldAddr chain on a Global
+				var parts []string
+				a := st.Addr
+				for {
+					if fa, ok := a.(*ssa.FieldAddr); ok {
+						t := fa.X.Type().Underlying().(*types.Pointer).Elem().Underlying().(*types.Struct)
+						parts = append([]string{t.Field(fa.Field).Name()}, parts...)
+						a = fa.X
+						continue
+					}
+					break
+				}
+				if g, ok := a.(*ssa.Global); ok {
+					name := shortName(g.String())
+					if len(parts) > 0 {
+						name += "." + strings.Join(parts, ".")
+					}
+					closureAlias[cl] = name + "(func)"
+				}
+			}
+		}
+	}
 }
 
 func inModule(pkgPath string) bool {
@@ -120,6 +187,7 @@ func Load(repo, goarch string, needCG bool) (*Prog, error) {
 		Repo: repo, GOARCH: goarch, Fset: fset, Pkgs: pkgs, SSA: prog,
 		PkgByID: map[string]*packages.Package{}, SSAPkgs: map[string]*ssa.Package{},
 		ByName: map[string]*ssa.Function{},
+		retRootsMemo: map[*ssa.Function][]root{}, retRootsBusy: map[*ssa.Function]bool{},
 	}
 	for i, p := range pkgs {
 		P.PkgByID[p.PkgPath] = p
@@ -179,6 +247,7 @@ func Load(repo, goarch string, needCG bool) (*Prog, error) {
 		}
 		add(fn)
 	}
+	computeClosureAliases(P.Funcs)
 	sort.Slice(P.Funcs, func(i, j int) bool { return fname(P.Funcs[i]) < fname(P.Funcs[j]) })
 	for _, fn := range P.Funcs {
 		P.ByName[fname(fn)] = fn
